@@ -186,7 +186,7 @@ def linearComparer (cfg : LinCfg) (x y : List Rat) (tol : Tolerance) : Except Cm
   else
     let modes := allModes.filter (fun m => (cfg.credit m).isSome)
     let modes := if comparingZero x y tol then modes.filter zeroCompatible else modes
-    let ref2 := sumL (x.map (fun a => a * a))
+    let ref2 := sumL (y.map (fun b => b * b))      -- the norm of the EXPECTED samples (fix F12)
     let results := modes.map (fun m =>
       if nearlyZero (err2 m x y) ref2 tol then ((cfg.credit m).getD 0, cfg.msg m) else (0, ""))
     match maxRes results with
